@@ -91,6 +91,7 @@ CaseOutcome prop_execute(const std::string & case_json) {
     if (r.stats.time_jumps) oc.tags.push_back("time_jump");
     if (c.second_sig >= 0) oc.tags.push_back("two_producers");
     if (c.drop) oc.tags.push_back("drop_on_overflow");
+    if (!c.sch.pct.empty()) { oc.tags.push_back("pct_schedule"); if (oc.nontrivial) oc.tags.push_back("pct_schedule_nontrivial"); }
     oc.counters.push_back({"scheduling_steps", (long) r.stats.steps});
     oc.counters.push_back({"context_switches", (long) r.stats.switches});
     oc.counters.push_back({"switches_with_lock_held", (long) r.stats.switches_with_lock});
